@@ -66,11 +66,14 @@ def nested_shape(shape, n, tseed):
 
 
 def symbols(n, nsites, dseed, pdiff):
+    """pdiff: one value for all sites, or a list with one value per site (a conserved column next to
+    saturated ones gives site likelihoods hundreds of orders of magnitude apart)"""
     rng = random.Random(dseed)
     cols = []
-    for _ in range(nsites):
+    for k in range(nsites):
+        pd = pdiff[k % len(pdiff)] if isinstance(pdiff, list) else pdiff
         base = rng.choice("ACGT")
-        cols.append([base if rng.random() > pdiff else rng.choice("ACGT") for _ in range(n)])
+        cols.append([base if rng.random() > pd else rng.choice("ACGT") for _ in range(n)])
     return cols
 
 
@@ -216,7 +219,7 @@ def base_case(draw, bands=None):
     return {
         "shape": draw(st.sampled_from(["caterpillar", "balanced", "random"])),
         "tseed": draw(st.integers(0, 10**6)), "dseed": draw(st.integers(0, 10**6)), "lseed": draw(st.integers(0, 10**6)),
-        "model": m, "site": site, "nsites": draw(st.integers(1, 4)), "pdiff": draw(st.sampled_from([0.0, 0.3, 0.75, 0.75])),
+        "model": m, "site": site, "nsites": draw(st.integers(1, 4)), "pdiff": draw(st.one_of(st.sampled_from([0.0, 0.3, 0.75, 0.75]), st.lists(st.sampled_from([0.0, 0.0, 0.3, 0.75]), min_size=4, max_size=4))),
         "palette": [draw(logu(0.05, 3.0)) for _ in range(draw(st.integers(1, 4)))],
         "band": draw(st.sampled_from(bands or ["comfortable", "above_normal", "subnormal", "subnormal", "beyond", "beyond", "far"])),
         "tip": draw(st.sampled_from(["noamb", "states"])),
@@ -273,7 +276,7 @@ def body(c):
     total, sites = ref.loglik(lengths)
     minsite = float(min(sites))
     band = size_band(minsite)
-    res = Res(nontrivial=minsite <= -700.0, key=(c["shape"], c["model"]["name"], c["site"], n, band, [round(x, 6) for x in c["palette"]], c["tip"], c["nsites"], c["dseed"] % 1000),
+    res = Res(nontrivial=minsite <= -700.0, key=(c["shape"], c["model"]["name"], c["site"], n, band, [round(x, 6) for x in c["palette"]], c["tip"], c["nsites"], c["dseed"] % 1000, str(c["pdiff"])),
               labels=(band, c["shape"], c["model"]["name"], c["site"]["kind"], c["tip"], "n<%d" % (256 * (n // 256 + 1))),
               tags={"model": c["model"]["name"], "band": band, "shape": c["shape"], "tip": c["tip"]})
     dic = build(c, n, ref, lengths, c["tip"])
@@ -375,8 +378,8 @@ def sweep_cases(tier):
         for m in models:
             step = 1 if tier == "thorough" else 6
             for n in range(500, 552, step):
-                out.append({"shape": shape, "tseed": 7, "dseed": 11, "lseed": 3, "model": m, "site": {"kind": "constant"}, "nsites": 3, "pdiff": 0.75,
-                            "palette": [1.0], "band": "subnormal", "tip": "noamb", "n": n})
+                out.append({"shape": shape, "tseed": 7, "dseed": 11, "lseed": 3, "model": m, "site": {"kind": "constant"}, "nsites": 3,
+                            "pdiff": 0.75 if n % 2 else [0.75, 0.0, 0.75], "palette": [1.0], "band": "subnormal", "tip": "noamb" if n % 4 < 2 else "states", "n": n})
     return out
 
 
